@@ -304,11 +304,22 @@ def _execute(ctx, mod, prop, replay):
         ctx.flush_model()
     except MachineryError:
         raise
-    except Exception:
-        if not ctx.failures:
-            raise MachineryError('harness crashed:\n' + traceback.format_exc())
-        # the harness tripped over a library that already misbehaves: report the failing inputs found so far
-        ctx.notes.append('harness aborted after recording failures: ' + traceback.format_exc()[-400:])
+    except Exception as e:
+        tb = traceback.format_exc()
+        if ctx.failures:
+            # the harness tripped over a library that already misbehaves: report the failing inputs found so far
+            ctx.notes.append('harness aborted after recording failures: ' + tb[-400:])
+            return
+        frames = traceback.extract_tb(e.__traceback__)
+        if frames and os.path.abspath(frames[-1].filename).startswith(os.path.abspath(REPO) + os.sep):
+            # the exception was raised INSIDE the library by a call the harness makes unguarded because it cannot fail on the
+            # unchanged tree (setting up an input, rendering a value): the library's behaviour changed under the harness. That
+            # is a broken correspondence (never an exit 2, which would hide it): the verdict logic goes on to search for a
+            # concrete failing input and reports no-failing-input-found with this traceback otherwise.
+            ctx.broken.append({'kind': 'library-raised-in-harness', 'detail': _short(tb[-1500:], 1500)})
+            ctx.notes.append('run aborted: the library raised inside an unguarded harness call')
+            return
+        raise MachineryError('harness crashed:\n' + tb)
 
 
 def run_check(prop, tier, seed, replay=None):
